@@ -144,6 +144,36 @@ def run_drive(workload, tier, seed, outdir, timeout=3000):
 
 
 # ------------------------------------------------------------------------------------------------
+COVERAGE = ["all" if os.environ.get("VERIF_COVERAGE") else ""]
+LIBS = {"BigInt", "Text", "TraceLib", "TextForms", "StrLit", "Calendar"}
+
+
+def parse_coverage(out):
+    """{(module, location): count} for the expressions of the specification modules (libraries excluded)."""
+    cov = {}
+    for m in re.finditer(r"^[ |]*line (\d+), col (\d+) to line (\d+), col (\d+) of module (\w+): (\d+)", out, re.M):
+        mod = m.group(5)
+        if mod in LIBS:
+            continue
+        k = (mod, "%s:%s-%s:%s" % m.group(1, 2, 3, 4))
+        cov[k] = cov.get(k, 0) + int(m.group(6))
+    return cov
+
+
+def coverage_summary(results):
+    tot = {}
+    for r in results:
+        for k, v in r.get("cov", {}).items():
+            tot[k] = tot.get(k, 0) + v
+    by = {}
+    for (mod, loc), v in tot.items():
+        d = by.setdefault(mod, dict(expressions=0, never_evaluated=[]))
+        d["expressions"] += 1
+        if v == 0 and len(d["never_evaluated"]) < 25:
+            d["never_evaluated"].append(loc)
+    return by
+
+
 def validate_chunks(outdir, trace_cfgs=None, timeout=1500):
     """Runs the trace specification named by each chunk file's prefix. Returns (results, rejects)."""
     chunks = sorted(glob.glob(os.path.join(outdir, "*.ndjson")))
@@ -154,8 +184,14 @@ def validate_chunks(outdir, trace_cfgs=None, timeout=1500):
         module = os.path.basename(c).split(".")[0]
         cfg = (trace_cfgs or {}).get(module, "Trace.cfg")
         deque = cfg != "Trace.cfg"
-        r = run_tlc(module, cfg, env={"TRACE": c}, timeout=timeout, extra=["-coverage", "1"] if os.environ.get("VERIF_COVERAGE") else [], deque=deque)
+        # coverage costs a factor 3-4: with VERIF_COVERAGE every chunk is measured, in the thorough tier every 4th one
+        # (the summary is then a lower bound: "never evaluated" may list expressions that other chunks did evaluate)
+        want_cov = COVERAGE[0] == "all" or (COVERAGE[0] == "sample" and chunks.index(c) % 4 == 0)
+        r = run_tlc(module, cfg, env={"TRACE": c}, timeout=timeout, extra=["-coverage", "1"] if want_cov else [], deque=deque)
         r["chunk"] = c
+        if want_cov:
+            r["cov"] = parse_coverage(r["out"])
+            r["out"] = re.sub(r"The coverage statistics at.*?(?=\n[A-Z<][^\n]*\n(?![ |<]))", "", r["out"], flags=re.S) if len(r["out"]) > 2000000 else r["out"]
         return r
 
     with ThreadPoolExecutor(max_workers=MAX_JVMS) as ex:
@@ -324,6 +360,8 @@ def check(pid, tier, seed):
     t0 = time.time()
     flatten_spec()
     bt = build_harness()
+    if tier == "thorough":
+        COVERAGE[0] = COVERAGE[0] or "sample"           # vacuity guard: per-expression evaluation counts of the trace specifications go into the evidence
     log("[%s] tier=%s seed=%d  (harness build %.1fs)" % (pid, tier, seed, bt))
     outdir = os.path.join(WORK, pid)
     # D
@@ -389,7 +427,7 @@ def check(pid, tier, seed):
                rule="T: one event per call on the real code, judged by the TLA+ action of the same name (events per action in events_by_action); "
                     "R: behaviours enumerated by TLC and replayed on the real code; D: bounded model checking of the specification",
                design_checks=dres, lemmas=lres, obligations=len(lres), discharged=len(lres), events_validated=events, events_by_action=ops, rejected_events=len(rejects),
-               behaviours_replayed=behaviours, generators=[{k: v for k, v in g.items() if k != "sample"} for g in gres],
+               spec_coverage=coverage_summary(tres), behaviours_replayed=behaviours, generators=[{k: v for k, v in g.items() if k != "sample"} for g in gres],
                replay_mismatches=len(mism), driver_summary=summary, known_findings_seen=sorted(known.keys()),
                exhaustive=bool(P.get("exhaustive", False)), extra={k: v for k, v in extra.items() if k != "samples"})
     wall = time.time() - t0
